@@ -1,18 +1,19 @@
-import RModel.Base.Bytes
-import RModel.Model.CliLit
-import RModel.Model.Wrappers
-import RModel.Model.WrappersKnown
-import RModel.Gen.CliGrammar
-import RModel.Gen.Wrappers
-import RModel.Gen.WrappersVerdict
+import RModel.Lemmas.C20Base
+import RModel.Lemmas.C20TableA
+import RModel.Lemmas.C20TableB
+import RModel.Lemmas.C20TableC
+import RModel.Lemmas.C20Verdict
 /-
   C20 — Every command line the wrappers build is accepted by the CLI.   (property theorems only)
 
   `Cli.accepts`        Lean model of clap's parser on the grammar generated from args.rs / types.rs
   `Wrap.build b v`     the argv builder `b` (generated from the TypeScript sources) applied to options `v`
-  `Wrap.okFor g b v`   the argv is accepted AND the parse result has the meaning the pushes intend
-                       (subcommand, positionals in order, every pushed flag set, every pushed option
-                        holding exactly the pushed values)
+  `Wrap.okFor g b v`   the argv is accepted AND the parse result is exactly what the option object calls for
+                       (`Wrap.means`: the subcommand, positionals exactly the given terms and paths, every
+                        pushed flag set, every pushed option holding exactly the given values, and
+                        `Wrap.untouched`: every other argument of the subcommand and every global at its
+                        default -- so a flag that the parser swallows as a path is a failure even though
+                        clap exits 0)
   `Wrap.enumerate b`   every subset of the optional fields x representative values, plus hostile values
   `Wrap.knownBad`      every defect ever found: (wrapper, builder, field[, value]) combinations
   `live`               the slugs of the `knownBad` entries that reproduce on the CURRENT sources: generated
@@ -41,19 +42,6 @@ import RModel.Gen.WrappersVerdict
 namespace C20
 open Wrap Cli
 
-abbrev G : Grammar := Gen.CliGrammar.grammar
-
-/-- slugs of the findings in force (generated verdict) -/
-abbrev live : List Str := Gen.WrappersVerdict.liveSlugs
-
-def inForce (slug : Str) : Bool := anyIs live slug
-
-/-- the guard: the valuation falls under a finding that is in force -/
-def guard (b : Builder) (v : Valuation) : Bool := usesBad live b v
-
-/-- the kernel-evaluated part of the enumerated space -/
-def space (b : Builder) : List Valuation := core live b
-
 /-- The property at full strength. -/
 def C20_full : Prop :=
   ∀ b ∈ Gen.Wrappers.builders, ∀ v ∈ enumerate b, okFor G b v = true
@@ -63,16 +51,19 @@ def C20_full : Prop :=
 def C20_guarded : Prop :=
   ∀ b ∈ Gen.Wrappers.builders, ∀ v ∈ enumerate b, guard b v = false → okFor G b v = true
 
-/-- one row of the decision table: outside the guard the command line works, inside it does not -/
-def rowOk (b : Builder) (v : Valuation) : Bool := guard b v != okFor G b v
+/-- the decision table over all builders, assembled from the three kernel-evaluated parts
+    (`Lemmas/C20Table{A,B,C}.lean`) -/
+theorem table : Gen.Wrappers.builders.all (fun b => (space b).all (rowOk b)) = true := by
+  have hA := tableA
+  have hB := tableB
+  have hC := tableC
+  unfold tableOn at hA hB hC
+  rw [← List.take_append_drop cutA Gen.Wrappers.builders, List.all_append, hA, Bool.true_and,
+      ← List.take_append_drop cutB (Gen.Wrappers.builders.drop cutA), List.all_append, hB, hC]
+  rfl
 
-set_option maxRecDepth 1000000 in
-theorem table : Gen.Wrappers.builders.all (fun b => (space b).all (rowOk b)) = true := by decide +kernel
-
-set_option maxRecDepth 1000000 in
-/-- the generated verdict is what the model computes: exactly the `knownBad` entries that apply to some
-    probed valuation whose command line is rejected or misread -/
-theorem verdict_exact : liveSlugsOf G Gen.Wrappers.builders = live := by decide +kernel
+/-- the generated verdict is what the model computes (`Lemmas/C20Verdict.lean`) -/
+theorem verdict_exact : liveSlugsOf G Gen.Wrappers.builders = live := verdict_exact_lemma
 
 /-- C20 on the kernel-evaluated part of the space: whatever stays outside the guard is accepted by the
     CLI's parser with the intended meaning. -/
@@ -82,6 +73,20 @@ theorem C20_partial :
   have h := List.all_eq_true.mp (List.all_eq_true.mp table b hb) v hv
   simp [rowOk, hbad] at h
   exact h
+
+/-- The meaning clause spelled out: outside the guard the parser returns a result `p` in which every
+    expectation derived from the option object holds and nothing else is set. -/
+theorem C20_meaning :
+    ∀ b ∈ Gen.Wrappers.builders, ∀ v ∈ space b, guard b v = false →
+      ∃ p, accepts G (build b v) = .ok p ∧
+        (intent b v).all (holds G p) = true ∧ untouched G p (intent b v) = true := by
+  intro b hb v hv hg
+  have h := C20_partial b hb v hv hg
+  unfold okFor at h
+  split at h
+  · rename_i p hp
+    exact ⟨p, hp, by simpa [means, Bool.and_eq_true] using h⟩
+  · cases h
 
 /-- The guard is exact there: every excluded valuation really fails (rejected, or accepted with another
     meaning), so it hides nothing that works. -/
